@@ -116,11 +116,16 @@ def model_scenario(sc):
     return lines
 
 
+def _opts(cfg):
+    """options M1 does not know because they must not matter: frame_average_count 0 and 1 both mean "no averaging" """
+    return (" avg=%d" % cfg["avg"]) if "avg" in cfg else ""
+
+
 def harness_prog(sc):
     prog = []
     for s, cfg in enumerate(sc["streams"]):
         if cfg is not None:
-            prog.append("cfg %d cam=%d sto=%d w=%d h=%d type=%d n=%d" % (s, s, s + 2, cfg["w"], cfg["h"], cfg["type"], cfg["n"]))
+            prog.append("cfg %d cam=%d sto=%d w=%d h=%d type=%d n=%d" % (s, s, s + 2, cfg["w"], cfg["h"], cfg["type"], cfg["n"]) + _opts(cfg))
     prog += ["configure", "window"]
     for op in sc["window"]:
         if op.startswith("reconfigure"):
@@ -128,7 +133,7 @@ def harness_prog(sc):
             ns = [int(t[1]), int(t[2]) if len(t) > 2 else 0]
             for s, cfg in enumerate(sc["streams"]):
                 if cfg is not None:
-                    prog.append("cfg %d cam=%d sto=%d w=%d h=%d type=%d n=%d" % (s, s, s + 2, cfg["w"], cfg["h"], cfg["type"], ns[s]))
+                    prog.append("cfg %d cam=%d sto=%d w=%d h=%d type=%d n=%d" % (s, s, s + 2, cfg["w"], cfg["h"], cfg["type"], ns[s]) + _opts(cfg))
             prog.append("configure")
         else:
             prog.append(op)
